@@ -42,7 +42,7 @@ TAGS = ["gpu", "custom:db"]
 def _cap(Capability, c):
     return getattr(Capability, c) if c in CAPS else c
 ENTRIES = ["auto", "forced-tool", "forced-math", "forced-logic", "forced-transform", "execute_tool_call", "nucleus", "nested-arg", "in-arithmetic", "in-comparison"]
-HOWS = ["engulf", "register_function", "custom-capabilities-attr"]
+HOWS = ["engulf", "register_function", "custom-capabilities-attr", "iterator-capabilities"]
 TOOLS = ["t0", "t1", "t2"]
 
 _caps = st.one_of(st.lists(st.sampled_from(CAPS), max_size=3, unique=True), st.lists(st.sampled_from(CAPS), max_size=3, unique=True),
@@ -91,6 +91,9 @@ def enumerate_cases(tier):
                     for asked_tool in ("t0", "t1"):
                         yield {"allowed": allowed, "init": [], "ids": ids,
                                "steps": [["reg", "engulf", first, bad], ["reg", "engulf", second, list(allowed)], ["call", "nucleus", asked_tool]]}
+    for allowed in ([], ["READ_FS"]):
+        for entry in ("auto", "forced-tool", "execute_tool_call", "nucleus"):
+            yield {"allowed": allowed, "init": [], "steps": [["reg", "iterator-capabilities", "t0", ["NET"]], ["call", entry, "t0"], ["call", entry, "t0"], ["call", "execute_tool_call", "t0"]]}
     horizon = 160 if tier == "thorough" else 90
     for allowed, old in (([], []), (["READ_FS"], ["READ_FS"]), (["READ_FS"], [])):
         for entry in RACE_ENTRIES:
@@ -153,6 +156,9 @@ def judge(case):
             m.register_function(name, body, "d", required_capabilities=capset)
         elif how == "custom-capabilities-attr":
             m.engulf_tool(_CustomTool(name, body, capset))
+        elif how == "iterator-capabilities":
+            # the requirement handed over as a one-shot iterable (map / generator): still the tool's declared requirement on every later request
+            m.register_function(name, body, "d", required_capabilities=(c_ for c_ in sorted(capset, key=str)))
         else:
             raise HarnessError(how)
 
